@@ -49,6 +49,9 @@ class C06(Machine):
             c = pb.client()
             o = objs[0] if (ci == 0 or shared) else objs[min(ci, nobj - 1)]
             only_enc = rng.random() < 0.4
+            if o != objs[0] and rng.random() < 0.5:
+                # this client builds its object only now (after others may have produced keystream)
+                pb.step(c, k="make", slot=o, obj=o, name="make", tag="make")
             for _ in range(rng.randint(2, 6)):
                 n = rng.choice(PLENS)
                 r = rng.random()
@@ -82,6 +85,11 @@ class C06(Machine):
         for s in plan["steps"]:
             o = s["obj"]
             rec = plan["objects"][o]
+            if s.get("k") == "make":
+                refs.pop(o, None)
+                streams.pop(o, None)
+                trace.append("%d:%d:make" % (s.get("c", 0), o))
+                continue
             if o not in refs:
                 refs[o] = RC4Ref(bytes.fromhex(rec["key"]["b"]))
                 streams[o] = {"ops": 0, "pure": True, "inp": b"", "out": b"", "clients": set(), "kinds": set(), "before": 0}
